@@ -163,6 +163,42 @@ theorem vegaflux_unit_consistent {K : Type} [Field K] [CharZero K] (H C : K) :
   have h1 : (waveTo .m .m : K) = 1 := waveTo_self .m
   cases vu <;> simp only [vegaflux, fluxTo, h1, div_one, and_self, and_true]
 
+/-! ### absolute anchors: the theorems above establish CONSISTENCY of the tables; these fix their absolute scale, so that a
+self-consistently wrong table, constant or Planck formula breaks a theorem and not only the oracle -/
+
+/-- metres per unit, written here by hand (the SI prefixes), independently of the generated table -/
+def metresPer : WUnit → ℚ
+  | .m => 1
+  | .um => 1 / 1000000
+  | .nm => 1 / 1000000000
+  | .angstrom => 1 / 10000000000
+
+/-- every wavelength factor is the ratio of the SI sizes of the two units (with the cocycle this pins all 16 cells) -/
+theorem wave_factor_absolute : ∀ a b : WUnit, (waveTo a b : ℚ) = metresPer a / metresPer b := by
+  intro a b; cases a <;> cases b <;> norm_num [waveTo, metresPer]
+
+/-- the flux conversions against their physical definitions: a photon of wavelength w carries h·c/w joules; 1 W m⁻² = 10³ erg s⁻¹ cm⁻² -/
+theorem flux_factor_absolute {K : Type} [Field K] [CharZero K] (f w H C : K) :
+    fluxTo .photlam .wlam f w H C = f * (H * C) / w ∧ fluxTo .wlam .flam f w H C = f * 1000 ∧
+    fluxTo .flam .wlam f w H C = f / 1000 := by
+  refine ⟨rfl, ?_, ?_⟩ <;> simp only [fluxTo] <;> norm_num <;> ring
+
+/-- the module constants against CODATA 2018 (h = 6.62607015e-34 J s, c = 299792458 m/s, k = 1.380649e-23 J/K): equal to
+1e-6 relative or better (h, k are the CODATA 2010 values; c = 299792456 is a typo for …458, 6.7e-9 off — noted) -/
+theorem constants_near_codata :
+    |(constH : ℚ) - 662607015 / 10 ^ 42| < (662607015 / 10 ^ 42) / 10 ^ 6 ∧
+    |(constC : ℚ) - 299792458| < 299792458 / 10 ^ 6 ∧
+    |(constK : ℚ) - 1380649 / 10 ^ 29| < (1380649 / 10 ^ 29) / 10 ^ 6 := by
+  refine ⟨?_, ?_, ?_⟩ <;> norm_num [constH, constC, constK, abs_lt]
+
+/-- the translated functions ARE Planck's law: in SI units (wavelength in metres, W m⁻² m⁻¹) the radiance is
+2hc²/(λ⁵(exp(hc/(λkT)) − 1)) and the exitance 2πhc²/(…) — an edited exponent or constant in both functions stops this proof -/
+theorem planck_closed_form {K : Type} [Field K] [CharZero K] (expf : K → K) (pi H C kB w T : K) :
+    planckRadiance expf pi H C kB w T .m .wlam = 2 * H * C ^ 2 / (w ^ 5 * (expf (H * C / (w * kB * T)) - 1)) ∧
+    planckExitance expf pi H C kB w T .m .wlam = 2 * pi * H * C ^ 2 / (w ^ 5 * (expf (H * C / (w * kB * T)) - 1)) := by
+  have h1 : (waveTo .m .m : K) = 1 := waveTo_self .m
+  constructor <;> simp only [planckRadiance, planckExitance, h1, mul_one, div_one] <;> norm_num <;> ring
+
 /-- non-vacuity: 700 nm → µm on a `wlam` density, concrete numbers -/
 example : toWave .um ⟨[500, 700], [2, 4], .nm, some .wlam⟩ = ⟨[1/2, 7/10], [2000, 4000], .um, some .wlam⟩ := by
   simp [toWave_eq, waveTo]; norm_num
